@@ -902,7 +902,13 @@ pixman_image_fill_boxes (pixman_op_t           op,
         op = PIXMAN_OP_SRC;
     }
 
-    if (op == PIXMAN_OP_SRC)
+    /* The direct fill writes the pixel buffer itself, so it is only
+     * equivalent to compositing if nothing else takes part in a store.
+     */
+    if (op == PIXMAN_OP_SRC		&&
+	!dest->common.alpha_map		&&
+	!dest->bits.read_func		&&
+	!dest->bits.write_func)
     {
         uint32_t pixel;
 
